@@ -37,6 +37,7 @@ type frame struct {
 	loopOrd  int
 	contract *Contract
 	deferGuard map[*ast.DeferStmt]string
+	concrete   map[types.Object]types.Type // interface parameters known to hold a concrete type (inlined calls)
 }
 
 type targets struct {
